@@ -57,7 +57,9 @@ def exec_from_one_connection(serversock) -> None:
     # rstrip so that we can use \r\n for telnet testing
     source = clientfile.readline().rstrip()
     clientfile.close()
-    g = {"clientsock": clientsock, "address": address, "execmodel": execmodel}
+    g = {"clientsock": clientsock, "address": address}
+    if execmodel is not None:
+        g["execmodel"] = execmodel
     source = eval(source)
     if source:
         co = compile(source + "\n", "<socket server>", "exec")
@@ -70,8 +72,11 @@ def exec_from_one_connection(serversock) -> None:
             # clientsock.close()
 
 
-def bind_and_listen(hostport: str | tuple[str, int], execmodel: ExecModel):
-    socket = execmodel.socket
+def bind_and_listen(hostport: str | tuple[str, int], execmodel: ExecModel | None):
+    if execmodel is None:
+        import socket
+    else:
+        socket = execmodel.socket
     if isinstance(hostport, str):
         host, port = hostport.split(":")
         hostport = (host, int(port))
@@ -116,9 +121,14 @@ if __name__ == "__main__":
     import sys
 
     hostport = sys.argv[1] if len(sys.argv) > 1 else ":8888"
-    from execnet.gateway_base import get_execmodel
-
-    execmodel = get_execmodel("thread")
+    try:
+        from execnet.gateway_base import get_execmodel
+    except ImportError:
+        # stand-alone use without execnet installed: the bootstrap code
+        # sent by the connecting side brings its own exec model
+        execmodel = None
+    else:
+        execmodel = get_execmodel("thread")
     serversock = bind_and_listen(hostport, execmodel)
     startserver(serversock, loop=True)
 
